@@ -204,7 +204,8 @@ impl<K: CacheKey + 'static> MemoryCache<K> {
             return;
         }
 
-        let target_entries = (self.config.max_entries * 90) / 100; // Evict to 90% capacity
+        // Evict to 90% capacity (floor(0.9 * max) without overflowing for a huge max_entries)
+        let target_entries = self.config.max_entries - self.config.max_entries.div_ceil(10);
         let current_entries = self.entry_count.load(Ordering::Relaxed);
 
         if current_entries <= target_entries {
